@@ -253,6 +253,18 @@ for fam, keep in (("NOP", []), ("SLEEP", []), ("LDC_IMM", []), ("LDC_RS", []), (
                   ("DAA", MOVL_FILE), ("DAS", ["cmp_l_imm", "cmp_l_rn"]), ("EXTS", []), ("MULDIVXS", []), ("EEPMOV", []), ("MOVFPE", MOVB_FILE)):
     add("C07", f"c07_unimpl_{fam.lower()}", f"c07::unimplemented($S, c07::{fam})", stubs=INSTR_STUBS, keep=keep)
 
+# C07, implemented side: "exactly its encoded length is consumed / executed as the manual's instruction" is decided form by form in
+# C01-C06; representatives of every multi-word encoding family are re-decided under C07 so that `./check C07` alone reports a
+# length / routing slip of an implemented instruction (seed C07c: BRN d:16 no longer fetching its displacement word)
+C07_IMPL = {"bcc8", "bcc16", "jmp_abs", "jmp_indirect", "bsr8", "bsr16", "jsr_abs", "rts", "mov_w_imm", "mov_l_imm", "mov_b_abs16_load", "mov_l_abs24_store",
+            "mov_w_disp24_load", "mov_l_disp16_store", "mov_b_disp16_load", "add_l_imm", "cmp_w_imm", "and_l_imm", "or_w_imm", "xor_l_rn", "bset_abs_imm", "btst_ern_byrn",
+            "stc_w_disp24", "stc_w_abs24", "trapa"}
+for prop, fname, call, keep, kw in FORMS:
+    if fname in C07_IMPL and kw.get("tier") != "thorough":
+        kw4 = dict(kw)
+        kw4.setdefault("stubs", INSTR_STUBS)
+        add("C07", f"c07_impl_{fname}", call.format(mode="ih::MODE_SEM"), keep=keep, **kw4)
+
 for n in range(4):
     add("C10", f"c10_boundary_step_q{n}", f"c10::boundary_step($S, {n})", stubs=(STUB_MEM,))
 add("C10", "c10_request_appends_9", "c10::request_appends($S, 9)", tier="thorough")
